@@ -40,6 +40,9 @@ var c19Bases = []string{
 	`{} | drop env | logfmt`,
 	`{} | label_format z=app`,
 	`{} | decolorize | logfmt x, sz`,
+	`{} | decolorize`,
+	`{} | logfmt | distinct y`,
+	`{} | distinct app | line_format "{{.app}}:{{__line__}}"`,
 }
 
 type c19Filter struct {
